@@ -80,6 +80,14 @@ func VH10a_close() {
 			if cerr == nil {
 				verif.Assert(ctx.Send([]byte{'c'}) == nil, lab+"/prep-context-request")
 			}
+			if verif.Choice("superseded", 2) == 1 {
+				// ... and a newer one has replaced it (the older one's timers must go with it)
+				verif.Quiesce()
+				verif.Assert(sock.Send([]byte{'Q'}) == nil, lab+"/prep-second-request")
+				if cerr == nil {
+					verif.Assert(ctx.Send([]byte{'C'}) == nil, lab+"/prep-second-context-request")
+				}
+			}
 			verif.Quiesce()
 			tps[0].SendMode = vt.SendBlock
 		case "rep", "respondent", "xrep", "xrespondent":
@@ -136,6 +144,9 @@ func VH10a_close() {
 		return
 	}
 	verif.Assert(clErr == nil, lab+"/close-error")
+	// every timer the library armed with a callback (retry, survey expiry, deadlines of REQ, redial) has an owner
+	// that can stop it: none may still be pending once Close has returned
+	verif.Assert(verif.PendingCallbackTimers() == 0, lab+"/stoppable-timer-still-armed-after-close")
 	for i := 0; i < 4; i++ { // let deadline / retry / linger timers run out
 		verif.FireTimer()
 	}
